@@ -32,6 +32,13 @@ _TMP = re.compile(r"/[^\s'\"]*sigsim-[A-Za-z0-9_]+")
 _AUTOID = re.compile(r"'[0-9a-f]{16}'")
 
 
+_FLATSET = re.compile(r"\{('[^'{}]*'(?:, '[^'{}]*')+)\}")
+
+
+def _sort_flat_set(m: "re.Match[str]") -> str:
+    return "{" + ", ".join(sorted(m.group(1).split(", "))) + "}"
+
+
 def normalise(s: Any, keep_random: bool = False) -> Any:
     """Normalise strings that legitimately differ between two executions: scratch paths, object
     addresses and (unless keep_random) the random _cond_/_filt_ identifiers."""
@@ -40,6 +47,8 @@ def normalise(s: Any, keep_random: bool = False) -> Any:
         s = _TMP.sub("/SCRATCH", s)
         if not keep_random:
             s = _AUTOID.sub("'AUTOID'", s)
+            # reprs of string sets: order depends on the hashes of the (normalised-away) members
+            s = _FLATSET.sub(_sort_flat_set, s)
         if not keep_random:
             s = _COND.sub("_cond_RANDOM", s)
             s = _FILT.sub("_filt_RANDOM", s)
